@@ -6,14 +6,16 @@
 EXTENDS ExprJson, FiniteSets, TLC
 RT == INSTANCE RoundTrip
 
-Prof(op, ty, w, s, i) == [op |-> op, ty |-> ty, has_wild |-> w, slashed |-> s, intvalued |-> i, empty |-> FALSE]
+\* f64ty / f64v: what the number is after a passage through float64 ("v" = unchanged, "v2" = low digits lost)
+ProfN(op, ty, w, s, i, fty, fv) == [op |-> op, ty |-> ty, has_wild |-> w, slashed |-> s, intvalued |-> i, empty |-> FALSE, f64ty |-> fty, f64v |-> fv]
+Prof(op, ty, w, s, i) == ProfN(op, ty, w, s, i, "", "")
 LeafT(op, ty) == [op |-> op, ty |-> ty, v |-> "v", sg |-> "x"]
 \* a leaf together with its profile: every combination that can exist for the kind
 LP == {<<LeafT("LIT", "str"), Prof("LIT", "str", w, s, FALSE)>> : w \in BOOLEAN, s \in BOOLEAN}
       \cup {<<LeafT("WILD", "str"), Prof("WILD", "str", w, s, FALSE)>> : w \in BOOLEAN, s \in BOOLEAN}
       \cup {<<LeafT("REGEXP", "str"), Prof("REGEXP", "str", w, TRUE, FALSE)>> : w \in BOOLEAN}
-      \cup {<<LeafT("LIT", "int"), Prof("LIT", "int", FALSE, FALSE, FALSE)>>}
-      \cup {<<LeafT("LIT", "float"), Prof("LIT", "float", FALSE, FALSE, i)>> : i \in BOOLEAN}
+      \cup {<<LeafT("LIT", "int"), ProfN("LIT", "int", FALSE, FALSE, FALSE, "int", fv)>> : fv \in {"v", "v2"}}
+      \cup {<<LeafT("LIT", "float"), ProfN("LIT", "float", FALSE, FALSE, i, IF i THEN "int" ELSE "float", "v")>> : i \in BOOLEAN}
 ColL == <<LeafT("LIT", "col"), Prof("LIT", "col", FALSE, FALSE, FALSE)>>
 \* trees with their leaf profiles in enumeration order
 Trees == {<<a[1], <<a[2]>>>> : a \in LP}
@@ -26,11 +28,13 @@ Trees == {<<a[1], <<a[2]>>>> : a \in LP}
 
 \* the profiles of the decoded tree: same texts, so same facts, but the kinds may have changed
 DecProf(leaf, p) == [p EXCEPT !.op = DecLeaf(leaf, p).op, !.ty = DecLeaf(leaf, p).ty]
+\* an integer range bound that float64 cannot hold (known finding C12-big-int-range-bound, visible in the model as well)
+BigBound(T, ps) == T.op = "RANGE" /\ \E i \in {2, 3} : ps[i].ty = "int" /\ ps[i].f64v # "v"
 VARIABLE t
 Init == t \in Trees
 Next == UNCHANGED t
 Spec == Init /\ [][Next]_t
-InferableRoundTrips == RT!Inferable([leaves |-> t[2]]) => RoundTripped(t[1], t[2]) = t[1]
+InferableRoundTrips == (RT!Inferable([leaves |-> t[2]]) /\ ~BigBound(t[1], t[2])) => RoundTripped(t[1], t[2]) = t[1]
 \* a float that came back as an int is an int with integer text: its profile no longer says "float"
 RECURSIVE LeafSeq(_)
 LeafSeq(T) == CASE T.op \in JLeafOps -> <<T>>
@@ -39,6 +43,9 @@ LeafSeq(T) == CASE T.op \in JLeafOps -> <<T>>
                 [] T.op = "IN" -> LeafSeq(T.l) \o T.items
                 [] OTHER -> LeafSeq(T.l) \o LeafSeq(T.r)
 Idempotent == LET d == RoundTripped(t[1], t[2])
-                  ps == [i \in DOMAIN t[2] |-> [DecProf(LeafSeq(t[1])[i], t[2][i]) EXCEPT !.intvalued = FALSE]]
+                  dl == LeafSeq(d)
+                  \* the decoded numbers are exactly representable: a second passage through float64 changes nothing
+                  ps == [i \in DOMAIN t[2] |-> [DecProf(LeafSeq(t[1])[i], t[2][i]) EXCEPT !.intvalued = FALSE, !.ty = dl[i].ty,
+                                                                                             !.f64ty = dl[i].ty, !.f64v = dl[i].v]]
               IN RoundTripped(d, ps) = d
 ========================================================================
